@@ -57,6 +57,9 @@ def cases(tier):
         out.append({'family': 'ugrid', 'mesh': mesh, 'supplied': ['edge_node'], 'edge_dim': 'declared'})
         out.append({'family': 'ugrid', 'mesh': mesh, 'supplied': ['edge_node'], 'edge_dim': 'implied',
                     'start_index': 1})
+        # the topology names an edge dimension that no variable carries (edges are only implied)
+        out.append({'family': 'ugrid', 'mesh': mesh, 'supplied': ['face_edge'], 'edge_dim': 'declared'})
+        out.append({'family': 'ugrid', 'mesh': mesh, 'edge_dim': 'declared'})
     return out
 
 
